@@ -20,6 +20,7 @@ define_language! {
         Let(Bind<AppliedId>, AppliedId) = "let",
         Lam2(Bind<Bind<AppliedId>>) = "lam2",
         Sym(Symbol),
+        T(AppliedId, AppliedId, AppliedId) = "t",
     }
 }
 
@@ -177,6 +178,7 @@ impl SimLang for LS {
             "sym" => LS::Sym(Symbol::from(sym_name(t.pay))),
             "u" => LS::U(nul()),
             "b" => LS::B(nul(), nul()),
+            "t" => LS::T(nul(), nul(), nul()),
             "g" => LS::G(s(0), nul()),
             "lam" => LS::Lam(Bind { slot: nm.slot(t.kids[0].binders[0]), elem: nul() }),
             "let" => LS::Let(Bind { slot: nm.slot(t.kids[0].binders[0]), elem: nul() }, nul()),
@@ -199,6 +201,7 @@ impl SimLang for LS {
             LS::Sym(sy) => ("sym", sym_pay(sy.as_str()), vec![], vec![]),
             LS::U(_) => ("u", 0, vec![], vec![vec![]]),
             LS::B(_, _) => ("b", 0, vec![], vec![vec![], vec![]]),
+            LS::T(_, _, _) => ("t", 0, vec![], vec![vec![], vec![], vec![]]),
             LS::G(s, _) => ("g", 0, vec![*s], vec![vec![]]),
             LS::Lam(b) => ("lam", 0, vec![], vec![vec![b.slot]]),
             LS::Let(b, _) => ("let", 0, vec![], vec![vec![b.slot], vec![]]),
